@@ -12,17 +12,21 @@ import (
 	"sort"
 	"time"
 
+	sdkmath "cosmossdk.io/math"
 	abci "github.com/cometbft/cometbft/abci/types"
+	storetypes "github.com/cosmos/cosmos-sdk/store/types"
 	sdk "github.com/cosmos/cosmos-sdk/types"
 	authtypes "github.com/cosmos/cosmos-sdk/x/auth/types"
 	"github.com/ethereum/go-ethereum/common"
 	"github.com/ethereum/go-ethereum/core"
 	ethtypes "github.com/ethereum/go-ethereum/core/types"
 	"github.com/ethereum/go-ethereum/crypto"
+	evmostypes "github.com/evmos/evmos/v16/types"
 	evmtypes "github.com/evmos/evmos/v16/x/evm/types"
 
 	assetsprecompile "github.com/ExocoreNetwork/exocore/precompiles/assets"
 	exotx "github.com/ExocoreNetwork/exocore/testutil/tx"
+	"github.com/ExocoreNetwork/exocore/utils"
 )
 
 func init() { register("c19multi", runC19Multi) }
@@ -43,6 +47,18 @@ type c19MMsg struct {
 	GasUsed uint64 `json:"gas_used"`
 	Failed  bool   `json:"vm_failed"`
 	Create  bool   `json:"create"`
+	Blocked bool   `json:"recipient_blocked"`
+	OGas    uint64 `json:"oracle_evm_gas"`
+	ORefund uint64 `json:"oracle_refund_counter"`
+	OFailed bool   `json:"oracle_failed"`
+	OWorld  string `json:"oracle_world"`
+}
+
+type c19Built struct {
+	msg  *evmtypes.MsgEthereumTx
+	from common.Address
+	fees *big.Int
+	gas  uint64
 }
 
 type c19MAcct struct {
@@ -70,6 +86,10 @@ type c19MCase struct {
 	World1  string     `json:"world_post"`
 	Supply0 string     `json:"supply_pre"`
 	Supply1 string     `json:"supply_post"`
+	BLim    int64      `json:"block_gas_limit"`
+	BGas0   uint64     `json:"block_gas_pre"`
+	BGas1   uint64     `json:"block_gas_post"`
+	CtxGas  int64      `json:"abci_gas_used"`
 }
 
 func runC19Multi(a *Args) error {
@@ -137,7 +157,11 @@ func (s *c19S) oneMulti(directed bool, directedVariant int) error {
 		base = big.NewInt(int64(7 + rng.Intn(1_000_000_000)))
 	}
 	s.setFeeMarket(noBase, base, mgp, mult)
-	s.setBlockMaxGas(-1)
+	blim := int64(-1)
+	if rng.Intn(5) == 0 {
+		blim = int64(150_000 + rng.Intn(500_000))
+	}
+	s.setBlockMaxGas(blim)
 	s.topUp()
 	env.NextBlock(time.Second)
 	baseFee := s.baseFee()
@@ -150,9 +174,8 @@ func (s *c19S) oneMulti(directed bool, directedVariant int) error {
 	}
 	sender0 := rng.Intn(6)
 	nextNonce := map[int]uint64{}
-	// plan senders and kinds first. In the random stream a creation (7) is kept only when it is the LAST message of its
-	// sender in this transaction: a creation followed by anything of the same sender (even a second creation that then
-	// fails) is the shape of the known finding and is produced by the directed, tagged cases only.
+	// plan senders and kinds first. The directed cases put a creation in front of further messages of the same sender
+	// (the shape of the repaired sequence defect, fix e884872); since the repair the random stream produces it too.
 	planSender := make([]int, k)
 	planKind := make([]int, k)
 	for i := 0; i < k; i++ {
@@ -171,14 +194,6 @@ func (s *c19S) oneMulti(directed bool, directedVariant int) error {
 			k = 2
 			planSender, planKind = planSender[:2], []int{7, 7} // second creation gets too little gas and fails
 		}
-	} else {
-		for i := 0; i < k; i++ {
-			for j := i + 1; j < k; j++ {
-				if planKind[i] == 7 && planSender[j] == planSender[i] {
-					planKind[i] = 0
-				}
-			}
-		}
 	}
 	var msgs []sdk.Msg
 	var tags []string
@@ -186,7 +201,8 @@ func (s *c19S) oneMulti(directed bool, directedVariant int) error {
 		tags = []string{c19TagCreateNonce}
 		s.w.Count("directed=create-then-more-messages")
 	}
-	cs := c19MCase{Suite: "c19multi", Tags: tags, Height: env.Header.Height, Base: baseFee.String(), MGP: mgp.BigInt().String(), Mult: mult.BigInt().String()}
+	cs := c19MCase{Suite: "c19multi", Tags: tags, Height: env.Header.Height, Base: baseFee.String(), MGP: mgp.BigInt().String(), Mult: mult.BigInt().String(), BLim: blim}
+	var built []c19Built
 	seen := map[string]bool{}
 	var involved []common.Address
 	note := func(a common.Address) {
@@ -218,6 +234,17 @@ func (s *c19S) oneMulti(directed bool, directedVariant int) error {
 			kind = "transfer-eoa"
 			to = addrp(s.addrs[rng.Intn(6)])
 			value = big.NewInt(int64(rng.Intn(1_000_000)))
+			switch rng.Intn(20) {
+			case 0: // more than the sender owns: refused by CanTransfer
+				value = new(big.Int).Add(s.bal(env.Ctx, from.Bytes()), big.NewInt(1))
+			case 1: // everything: passes CanTransfer (checked before any fee is deducted), fails inside the EVM
+				value = s.bal(env.Ctx, from.Bytes())
+			case 2: // a third: later messages of this sender may become unaffordable
+				value = new(big.Int).Quo(s.bal(env.Ctx, from.Bytes()), big.NewInt(3))
+			case 3: // to a module account the bank refuses to credit: stateDB.Commit error fails the whole tx
+				to = addrp(common.BytesToAddress(authtypes.NewModuleAddress("gov")))
+				value = big.NewInt(int64(1 + rng.Intn(1000)))
+			}
 		case 2:
 			kind = "call-store-set"
 			to = addrp(s.storer)
@@ -289,6 +316,10 @@ func (s *c19S) oneMulti(directed bool, directedVariant int) error {
 				price = big.NewInt(0)
 			}
 		}
+		if rng.Intn(40) == 0 && !directed && gas > 0 {
+			// one more than the sender can afford for this gas limit
+			price = new(big.Int).Add(new(big.Int).Quo(s.bal(env.Ctx, from.Bytes()), new(big.Int).SetUint64(gas)), big.NewInt(1))
+		}
 		tip := new(big.Int).Set(price)
 		if rng.Intn(2) == 0 {
 			tip = big.NewInt(int64(rng.Intn(1000)))
@@ -324,6 +355,15 @@ func (s *c19S) oneMulti(directed bool, directedVariant int) error {
 			return err
 		}
 		msgs = append(msgs, m)
+		eff := new(big.Int).Set(price)
+		if typ == 2 {
+			eff = new(big.Int).Add(tip, baseFee)
+			if eff.Cmp(price) > 0 {
+				eff = new(big.Int).Set(price)
+			}
+		}
+		built = append(built, c19Built{m, from, new(big.Int).Mul(eff, new(big.Int).SetUint64(gas)), gas})
+		rec.Blocked = env.App.BankKeeper.BlockedAddr(rcpt.Bytes())
 		cs.Msgs = append(cs.Msgs, rec)
 		s.w.Count("kind=" + kind)
 	}
@@ -340,9 +380,10 @@ func (s *c19S) oneMulti(directed bool, directedVariant int) error {
 	for _, a := range involved {
 		cs.Accts = append(cs.Accts, c19MAcct{Addr: c19Addr(a), Bal0: s.bal(env.Ctx, a.Bytes()).String(), Nonce0: s.seq(env.Ctx, a.Bytes())})
 	}
-	cs.Coll0, cs.World0, cs.Supply0 = s.bal(env.Ctx, s.coll).String(), s.world(env.Ctx), s.supply()
+	s.oracleMulti(built, cs.Msgs)
+	cs.Coll0, cs.World0, cs.Supply0, cs.BGas0 = s.bal(env.Ctx, s.coll).String(), s.world(env.Ctx), s.supply(), s.blockGas()
 	res := env.App.DeliverTx(abci.RequestDeliverTx{Tx: bz})
-	cs.Code = res.Code
+	cs.Code, cs.CtxGas = res.Code, res.GasUsed
 	if res.Code == 0 {
 		var txr sdk.TxMsgData
 		if err := txr.Unmarshal(res.Data); err == nil && len(txr.MsgResponses) == len(cs.Msgs) {
@@ -357,7 +398,7 @@ func (s *c19S) oneMulti(directed bool, directedVariant int) error {
 	for i, a := range involved {
 		cs.Accts[i].Bal1, cs.Accts[i].Nonce1 = s.bal(env.Ctx, a.Bytes()).String(), s.seq(env.Ctx, a.Bytes())
 	}
-	cs.Coll1, cs.World1, cs.Supply1 = s.bal(env.Ctx, s.coll).String(), s.world(env.Ctx), s.supply()
+	cs.Coll1, cs.World1, cs.Supply1, cs.BGas1 = s.bal(env.Ctx, s.coll).String(), s.world(env.Ctx), s.supply(), s.blockGas()
 	changed := cs.Coll1 != cs.Coll0
 	switch {
 	case res.Code == 0:
@@ -369,25 +410,108 @@ func (s *c19S) oneMulti(directed bool, directedVariant int) error {
 	default:
 		s.w.Count("result=rejected")
 	}
+	if res.Code != 0 {
+		s.w.Count(fmt.Sprintf("code=%s/%d", res.Codespace, res.Code))
+	}
+	if blim > 0 {
+		s.w.Count("env.blockgas=limited")
+	}
+	if res.Code != 0 && cs.BGas1 != cs.BGas0 && !changed {
+		s.w.Count("rejected-but-block-gas-consumed")
+	}
 	s.w.Count(fmt.Sprintf("msgs=%d", k))
 	if sameSender {
 		s.w.Count("senders=one")
 	} else {
 		s.w.Count("senders=mixed")
 	}
-	var ms, as, crs []string
+	var ms, as, crs, ors []string
 	for _, m := range cs.Msgs {
 		crs = append(crs, cBool(m.Create))
-		t := cApp("mkTx", cZ(int64(m.Type)), cStr(m.From), cStr(m.To), c19U(m.Nonce), c19U(m.Gas), cZstr(m.Price), cZstr(m.Cap), cZstr(m.Tip), cZstr(m.Value), c19U(m.Intr), "false")
+		ors = append(ors, cApp("mkOr", c19U(m.OGas), c19U(m.ORefund), cBool(m.OFailed), cStr(m.OWorld), cZ(cs.CtxGas)))
+		t := cApp("mkTx", cZ(int64(m.Type)), cStr(m.From), cStr(m.To), c19U(m.Nonce), c19U(m.Gas), cZstr(m.Price), cZstr(m.Cap), cZstr(m.Tip), cZstr(m.Value), c19U(m.Intr), cBool(m.Blocked))
 		ms = append(ms, cTuple(t, cOpt(m.HasResp, cTuple(c19U(m.GasUsed), cBool(m.Failed)))))
 	}
 	for _, a := range cs.Accts {
 		as = append(as, cApp("mkAO", cStr(a.Addr), cZstr(a.Bal0), cOpt(a.Nonce0 >= 0, cZ(a.Nonce0)), cZstr(a.Bal1), cOpt(a.Nonce1 >= 0, cZ(a.Nonce1))))
 	}
-	envC := cApp("mkEnv", cZstr(cs.Base), cZstr(cs.MGP), cZstr(cs.Mult), cZ(-1))
-	term := cApp("mkMCase", envC, cList(ms), cBool(cs.Code == 0), cList(as), cZstr(cs.Coll0), cZstr(cs.Coll1), cStr(cs.World0), cStr(cs.World1), cZstr(cs.Supply0), cZstr(cs.Supply1), cList(crs))
+	envC := cApp("mkEnv", cZstr(cs.Base), cZstr(cs.MGP), cZstr(cs.Mult), cZ(cs.BLim))
+	term := cApp("mkMCase", envC, cList(ms), cBool(cs.Code == 0), cList(as), cZstr(cs.Coll0), cZstr(cs.Coll1), cStr(cs.World0), cStr(cs.World1), cZstr(cs.Supply0), cZstr(cs.Supply1), cList(crs),
+		cList(ors), c19U(cs.BGas0), c19U(cs.BGas1), cZ(cs.CtxGas))
 	s.w.Add(term, cs)
 	return nil
+}
+
+// oracleMulti measures, message after message, what the interpreter reports, on a discarded branch of the deliver state
+// that reproduces what the real run sees: all fees deducted and all sequences advanced first (ante), one shared gas meter
+// reset to the running total after every message (ResetGasMeterAndConsumeGas), a cache context per message that is written
+// only when the execution did not fail, and the gas refund moved back to the sender.
+func (s *c19S) oracleMulti(built []c19Built, recs []c19MMsg) {
+	defer func() {
+		if r := recover(); r != nil {
+			for i := range recs {
+				recs[i].OWorld = "panic"
+			}
+		}
+	}()
+	app := s.env.App
+	cctx, _ := app.GetContextForDeliverTx(nil).CacheContext()
+	var sum uint64
+	for _, b := range built {
+		sum += b.gas
+	}
+	meter := evmostypes.NewInfiniteGasMeterWithLimit(sum)
+	cctx = cctx.WithGasMeter(meter).WithKVGasConfig(storetypes.GasConfig{}).WithTransientKVGasConfig(storetypes.GasConfig{})
+	w0 := s.world(cctx)
+	for i := range recs {
+		recs[i].OWorld = w0
+	}
+	for _, b := range built {
+		acc := app.AccountKeeper.GetAccount(cctx, b.from.Bytes())
+		if acc == nil {
+			return
+		}
+		if b.fees.Sign() > 0 {
+			coins := sdk.Coins{sdk.NewCoin(utils.BaseDenom, sdkmath.NewIntFromBigInt(b.fees))}
+			if err := app.BankKeeper.SendCoinsFromAccountToModule(cctx, b.from.Bytes(), authtypes.FeeCollectorName, coins); err != nil {
+				return
+			}
+		}
+		_ = acc.SetSequence(acc.GetSequence() + 1)
+		app.AccountKeeper.SetAccount(cctx, acc)
+	}
+	k := app.EvmKeeper
+	total := uint64(0)
+	for i, b := range built {
+		tmp, write := cctx.CacheContext()
+		cfg, err := k.EVMConfig(tmp, sdk.ConsAddress(tmp.BlockHeader().ProposerAddress), s.chainID)
+		if err != nil {
+			return
+		}
+		ethTx := b.msg.AsTransaction()
+		cmsg, err := ethTx.AsMessage(ethtypes.MakeSigner(cfg.ChainConfig, big.NewInt(tmp.BlockHeight())), cfg.BaseFee)
+		if err != nil {
+			return
+		}
+		tr := &c19Tracer{}
+		res, err := k.ApplyMessageWithConfig(tmp, cmsg, tr, true, cfg, k.TxConfig(tmp, ethTx.Hash()))
+		if err != nil {
+			return // the whole transaction fails here; later oracles are not consulted
+		}
+		recs[i].OGas, recs[i].ORefund, recs[i].OFailed, recs[i].OWorld = tr.gas, tr.refund, res.Failed(), s.world(tmp)
+		if !res.Failed() {
+			write()
+		}
+		if left := new(big.Int).Mul(new(big.Int).SetUint64(b.gas-res.GasUsed), cmsg.GasPrice()); left.Sign() > 0 {
+			coins := sdk.Coins{sdk.NewCoin(utils.BaseDenom, sdkmath.NewIntFromBigInt(left))}
+			if err := app.BankKeeper.SendCoinsFromModuleToAccount(cctx, authtypes.FeeCollectorName, b.from.Bytes(), coins); err != nil {
+				return
+			}
+		}
+		total += res.GasUsed
+		meter.RefundGas(meter.GasConsumed(), "reset")
+		meter.ConsumeGas(total, "running total")
+	}
 }
 
 // demoReplay (C19_DEMO=1): evidence run for the finding "contract creation inside a multi-message transaction resets the
